@@ -70,6 +70,12 @@ func c05DecExec(c *core.Ctx, in c05Dec) {
 		return
 	}
 	c.Seen("outcome", "accept:"+tm.Family)
+	if err != nil && !ref.Canonical() {
+		// stray octets behind the body are outside the message grammar: the statement does not say that such an input
+		// must be accepted (a decoder may ignore them, as the pinned one does, or refuse them)
+		c.Inc("refused_inputs_with_octets_outside_the_grammar_not_asserted")
+		return
+	}
 	if err != nil {
 		fail("rejects-assigned-type", fmt.Sprintf("type %#x is assigned to %s and the body is valid, but decoding fails: %v", tm.MsgType, tm.Name, err))
 		return
